@@ -129,9 +129,11 @@ BoolXor(a, b, r) == r = IF a # b THEN 1 ELSE 0
 BoolNot(a, r) == r = 1 - a
 
 (* ---- gas ---- *)
-\* withdraw_gas of the (compile-time) amount c: Some (0) iff enough gas
+\* withdraw_gas of the (compile-time) amount c, observed at the end of a wrapper: Some (0) iff there
+\* was enough gas; the counter then went down by at most c (code after the libfunc may refund the
+\* unused part of a cheaper branch: branch_align / redeposit_gas) and never up
 WithdrawGas(c, gas0, gas1, var) ==
-    \/ (gas0 >= c /\ var = 0 /\ gas1 = gas0 - c)
+    \/ (gas0 >= c /\ var = 0 /\ gas1 >= gas0 - c /\ gas1 <= gas0)
     \/ (gas0 < c /\ var = 1 /\ gas1 = gas0)
 
 (* ---- u256 ---- *)
